@@ -820,8 +820,8 @@ def run(R):
     # open_fails_when_mfn_index_fails, mapEnd_alloc_fails)
     maxf = (1 << (64 - PS_SHIFT)) - 1
     fcases = []
-    def fcase(tbl, nonauto=1, be=0):
-        fcases.append(dict(nonauto=nonauto, be=be, mapoff=0x1000, order=None, pad=0, tbl=tbl, note_name=".note.Xen", hist=False))
+    def fcase(tbl, nonauto=1, be=0, mapoff=0x1000):
+        fcases.append(dict(nonauto=nonauto, be=be, mapoff=mapoff, order=None, pad=0, tbl=tbl, note_name=".note.Xen", hist=False))
     b1, b2 = rng.randrange(1, 1 << 30), rng.randrange(1 << 31, 1 << 40)
     n1 = rng.randint(2, 40)
     fcase([(b1 + i, b2 + i) for i in range(n1)])                                   # one ascending run in both views
@@ -829,6 +829,11 @@ def run(R):
     fcase([(b1 + i, b2 + 7 * i) for i in range(rng.choice([1, 16, 17, 33]))])      # isolated machine frames (the array of singles grows at 16, 32)
     fcase([(b1 + 5 * (i // 2) + i % 2, b2 + 9 * (i // 3) + i % 3) for i in range(rng.choice([32, 33, 34, 48]))], be=rng.randint(0, 1))  # 16+ short runs
     fcase([(b1 + i, 0) for i in range(n1)], nonauto=0)                             # pfn-only layout
+    # the LAST record straddles two file-cache blocks (it is read through the bounce buffer): a failure while the last run is
+    # flushed must not look at anything behind it (fix dbbeafb: the error path read one more record from the cursor)
+    fcase([(0, 0)], mapoff=2 * FCACHE_BLOCK - 8)
+    n2 = rng.randint(2, 9)
+    fcase([(b1 + 3 * i, b2 + 5 * i) for i in range(n2)], mapoff=FCACHE_BLOCK - 16 * (n2 - 1) - 8, be=rng.randint(0, 1))
     pool = [c for c in ccases if c["tbl"]]
     for c in rng.sample(pool, min(len(pool), 6 if R.tier == "quick" else 120)):
         fcases.append(dict(c, hist=False))
